@@ -2,7 +2,7 @@
     a case is a history of write and read operations together with what the
     Go driver observed for each; the model is run along the history. *)
 From Coq Require Import List ZArith NArith Bool.
-From DH Require Import Lib.CheckLib Model.Store Model.FeedSpec.
+From DH Require Import Lib.CheckLib Model.Store Model.FeedSpec Model.Keys.
 Import ListNotations.
 Open Scope Z_scope.
 
@@ -12,7 +12,8 @@ Inductive sop :=
 | SChanges (ds since limit : Z) (latest : bool) (o_ents : list oent) (o_next : Z)
 | SEntities (ds : Z) (limits : list Z) (o_pages : list (list oent))
 | SGet (id : uri) (at_ : option Z) (scope : list Z) (merged : bool)
-       (o_found : bool) (o_partials : list (Z * content)) (o_deleted : bool).
+       (o_found : bool) (o_partials : list (Z * content)) (o_deleted : bool)
+| SRaw (fam : N) (o_keys : list (list N)).   (* raw Badger keys of one index family, in iteration order *)
 
 Definition tcase := list sop.
 
@@ -65,9 +66,9 @@ Definition page_oents (pg : list (uri * option content)) : list oent :=
 Definition partial_eqb (a b : Z * content) : bool := Z.eqb (fst a) (fst b) && identical (snd a) (snd b).
 
 (** which kinds of operation a property compares *)
-Record proj := { p_writes : bool; p_changes : bool; p_entities : bool; p_get : bool }.
-Definition proj_c02 := {| p_writes := true; p_changes := true; p_entities := false; p_get := false |}.
-Definition proj_c01 := {| p_writes := false; p_changes := false; p_entities := true; p_get := true |}.
+Record proj := { p_writes : bool; p_changes : bool; p_entities : bool; p_get : bool; p_raw : bool }.
+Definition proj_c02 := {| p_writes := true; p_changes := true; p_entities := false; p_get := false; p_raw := false |}.
+Definition proj_c01 := {| p_writes := false; p_changes := false; p_entities := true; p_get := true; p_raw := true |}.
 
 Definition now_of (st : store) : Z := s_clock st.
 
@@ -101,6 +102,10 @@ Definition agree_op (db : bool) (pr : proj) (st : store) (o : sop) : bool :=
        else list_eqb partial_eqb parts o_partials
             && (match parts with [] => Bool.eqb hasdel o_deleted | _ => true end)
      else match parts with [] => negb hasdel | _ => false end)
+  | SRaw fam o_keys =>
+    (* the real keys decode with the modelled layout, re-encode to themselves and come out of Badger in
+       the order of their FIELD values (Proofs/KeysProofs.enc_order says that is the bytewise order) *)
+    negb (p_raw pr) || raw_family_ok fam o_keys
   end.
 
 Fixpoint agree_run (v : variant) (db : bool) (pr : proj) (st : store) (ops : list sop) : bool :=
@@ -167,6 +172,7 @@ Definition spec_op_ok (pr : proj) (s : sstate) (o : sop) : bool :=
                  | _ => true end)
       else match cur with [] => true | _ => false end
     end
+  | SRaw _ _ => true
   end.
 
 Fixpoint spec_run (pr : proj) (s : sstate) (ops : list sop) : bool :=
